@@ -142,6 +142,7 @@ Step ==
                [] e.ev = "Kids"  -> KidsOk(e)
                [] e.ev = "Iface" -> IfaceOk(e)
                [] e.ev = "Cast"  -> CastOk(e)
+               [] e.ev = "Crash" -> MM([tag |-> "MM", i |-> l, ev |-> "Crash", api |-> "", label |-> "Crash", exp |-> "", got |-> "process-died", detail |-> ""])
                [] e.ev = "InputMutated" -> MM([tag |-> "MM", i |-> l, ev |-> "InputMutated", api |-> "", label |-> "InputMutated", exp |-> "", got |-> "", detail |-> ""])
                [] OTHER -> MM([tag |-> "HARNESS", i |-> l, ev |-> e.ev, api |-> "", label |-> "UnknownEvent", exp |-> "", got |-> "", detail |-> ""])
   /\ l' = l + 1
